@@ -100,8 +100,8 @@ Definition count_rendered (l : list (nat * option (list qseg) * qmat)) : nat :=
 Definition code (tie : bool) (count_ok : bool) (m : nat) : nat :=
   ((if tie then 0 else 1) + (if count_ok then 0 else 2) + 4 * m)%nat.
 
-Definition check_document (tol : Qc) (tree : qnode) (obs : option (list obs_entry)) : nat :=
-  let tie := tie_entries tol (doc_paths N tree) obs in
+Definition check_document (c : cfg) (tol : Qc) (tree : qnode) (obs : option (list obs_entry)) : nat :=
+  let tie := tie_entries tol (doc_paths N c tree) obs in
   let refl := ref_paths N tree in
   match obs with
   | None => code tie false (mask (map (fun _ => false) refl))
@@ -109,9 +109,9 @@ Definition check_document (tol : Qc) (tree : qnode) (obs : option (list obs_entr
       code tie (Nat.eqb (length o) (count_rendered refl)) (mask (map (ref_elem_ok tol o) refl))
   end.
 
-Definition check_from_group (tol : Qc) (tree : qnode) (target : position)
+Definition check_from_group (c : cfg) (tol : Qc) (tree : qnode) (target : position)
            (obs : option (list obs_entry)) : nat :=
-  let tie := tie_entries tol (doc_paths_from_group N tree target) obs in
+  let tie := tie_entries tol (doc_paths_from_group N c tree target) obs in
   match ref_from_group N tree target with
   | None => code tie true 0
   | Some outs =>
@@ -144,8 +144,8 @@ Definition plain_elem_ok (tol : Qc) (obs : list obs_plain) (ka : kind * @attrs Q
 Definition count_plain (l : list (kind * @attrs Qc)) : nat :=
   length (filter (fun ka => match shape_spec N (fst ka) (snd ka) with Some _ => true | None => false end) l).
 
-Definition check_svg2paths (tol : Qc) (tree : qnode) (obs : option (list obs_plain)) : nat :=
-  let tie := tie_plain tol (svg2paths_model N tree) obs in
+Definition check_svg2paths (c : cfg) (tol : Qc) (tree : qnode) (obs : option (list obs_plain)) : nat :=
+  let tie := tie_plain tol (svg2paths_model N c tree) obs in
   let refl := preorder tree in
   match obs with
   | None => code tie false (mask (map (fun _ => false) refl))
@@ -167,15 +167,15 @@ Definition sax_entry_close (tol : Qc) (m o : nat * list qseg * option qmat) : bo
    obs_flat: flatten_all_paths().  want_mat = false: ties (1, 2) + 4 * mask of
    the reference elements whose geometry is not returned; want_mat = true:
    4 * mask of the elements whose recorded matrix is not the reference's *)
-Definition check_sax (want_mat : bool) (tol : Qc) (tree : qnode)
+Definition check_sax (c : cfg) (want_mat : bool) (tol : Qc) (tree : qnode)
            (obs_parse : option (list (nat * list qseg * option qmat)))
            (obs_flat : option (list obs_plain)) : nat :=
-  let tie1 := match sax_parse N tree, obs_parse with
+  let tie1 := match sax_parse N c tree, obs_parse with
               | None, None => true
               | Some l, Some l' => lclose (sax_entry_close tol) l l'
               | _, _ => false
               end in
-  let tie2 := tie_plain tol (sax_flatten N tree) obs_flat in
+  let tie2 := tie_plain tol (sax_flatten N c tree) obs_flat in
   let refl := ref_paths N tree in
   (* property: flatten_all_paths returns the reference geometry, and the
      matrices recorded by the constructor are the reference's *)
@@ -218,14 +218,15 @@ Inductive obs :=
 | OSax (p : option (list (nat * list qseg * option qmat))) (f : option (list obs_plain))
 | OSaxMat (p : option (list (nat * list qseg * option qmat))).
 
-Definition check_case (c : Qc * qnode * obs) : nat :=
-  let '(tol, tree, o) := c in
+(* [c]: the variant of the code the harness detected (Model/SvgTree.v cfg) *)
+Definition check_case (c : cfg) (x : Qc * qnode * obs) : nat :=
+  let '(tol, tree, o) := x in
   match o with
-  | ODocument x => check_document tol tree x
-  | OGroup t x => check_from_group tol tree t x
-  | OSvg2paths x => check_svg2paths tol tree x
-  | OSax p f => check_sax false tol tree p f
-  | OSaxMat p => check_sax true tol tree p None
+  | ODocument x => check_document c tol tree x
+  | OGroup t x => check_from_group c tol tree t x
+  | OSvg2paths x => check_svg2paths c tol tree x
+  | OSax p f => check_sax c false tol tree p f
+  | OSaxMat p => check_sax c true tol tree p None
   end.
 
 (* constructors the harness writes *)
